@@ -137,6 +137,20 @@ def dispatch(repo: Repo) -> List[Ob]:
             else:
                 good = isinstance(v, ast.Call) and (dotted(v.func) or "").split(".")[-1] == want
                 why = f"{want}(…)"
+                if not good and isinstance(v, ast.Call):
+                    # a renamed / re-exported constructor is fine when it folds to the same definition
+                    other = ops_funcs.get((dotted(v.func) or "").split(".")[-1])
+                    if other is not None and want in GATE_SPECS:
+                        try:
+                            got = fold_function(repo, other, {p: Poly.sym(p) for p in other.params})
+                            if got == fold_spec_text(repo, GATE_SPECS[want]):
+                                good, want = True, other.node.name
+                                why = f"{want}(…) folds to the definition of {mem}"
+                        except Unfoldable:
+                            pass
+                    elif other is None and (dotted(v.func) or "").split(".")[-1] not in ops_funcs:
+                        obs.append(skip("DISPATCH", co, f"constructor:{key}", P, ret, "constructor is not a function of _math/ops.py"))
+                        continue
                 if good:
                     callee = ops_funcs.get(want)
                     if callee is None:
